@@ -114,50 +114,34 @@ theorem fold_putMem (cur : List Key) (t : Nat) (i : Key) :
 /-- `initializeAliasToIndexMap` over a list of alias files -/
 theorem fold_rebuild (es : M) :
     ∀ (m : M), (∀ t' a', m.get (t', a') ≠ some []) → m.keys.Nodup →
-      (∀ t a i, mv (es.foldl (fun m e => if e.1.1 = 0 then m else e.2.foldl (fun m a => putMem m e.1.1 a e.1.2) m) m) t a i ↔
-          mv m t a i ∨ ∃ e ∈ es, e.1.1 ≠ 0 ∧ e.1.2 ≠ [] ∧ e.1 = (t, i) ∧ a ∈ e.2 ∧ a ≠ []) ∧
-      (∀ t' a', (es.foldl (fun m e => if e.1.1 = 0 then m else e.2.foldl (fun m a => putMem m e.1.1 a e.1.2) m) m).get (t', a') ≠ some []) ∧
-      (es.foldl (fun m e => if e.1.1 = 0 then m else e.2.foldl (fun m a => putMem m e.1.1 a e.1.2) m) m).keys.Nodup := by
+      (∀ t a i, mv (es.foldl (fun m e => e.2.foldl (fun m a => putMem m e.1.1 a e.1.2) m) m) t a i ↔
+          mv m t a i ∨ ∃ e ∈ es, e.1.2 ≠ [] ∧ e.1 = (t, i) ∧ a ∈ e.2 ∧ a ≠ []) ∧
+      (∀ t' a', (es.foldl (fun m e => e.2.foldl (fun m a => putMem m e.1.1 a e.1.2) m) m).get (t', a') ≠ some []) ∧
+      (es.foldl (fun m e => e.2.foldl (fun m a => putMem m e.1.1 a e.1.2) m) m).keys.Nodup := by
   induction es with
   | nil => intro m h1 h2; exact ⟨fun _ _ _ => by simp, h1, h2⟩
   | cons e r ih =>
     intro m h1 h2
     simp only [List.foldl_cons]
-    by_cases h0 : e.1.1 = 0
-    · simp only [h0, if_true]
-      obtain ⟨g1, g2, g3⟩ := ih m h1 h2
-      refine ⟨?_, g2, g3⟩
-      intro t a i
-      rw [g1]
-      constructor
-      · rintro (h | ⟨e', hm, hh⟩)
-        · exact Or.inl h
-        · exact Or.inr ⟨e', List.mem_cons_of_mem _ hm, hh⟩
-      · rintro (h | ⟨e', hm, hh⟩)
-        · exact Or.inl h
-        · rcases List.mem_cons.1 hm with rfl | hm
-          · exact absurd h0 hh.1
-          · exact Or.inr ⟨e', hm, hh⟩
-    · simp only [h0, if_false]
-      obtain ⟨f1, f2, f3⟩ := fold_putMem e.2 e.1.1 e.1.2 m h1 h2
-      obtain ⟨g1, g2, g3⟩ := ih _ f2 f3
-      refine ⟨?_, g2, g3⟩
-      intro t a i
-      rw [g1, f1]
-      constructor
-      · rintro ((h | ⟨hm, ha, hi, ht, hi'⟩) | ⟨e', hm, hh⟩)
-        · exact Or.inl h
-        · refine Or.inr ⟨e, List.mem_cons_self, h0, hi, ?_, hm, ha⟩
-          rw [ht, hi']
-        · exact Or.inr ⟨e', List.mem_cons_of_mem _ hm, hh⟩
-      · rintro (h | ⟨e', hm, hh⟩)
-        · exact Or.inl (Or.inl h)
-        · rcases List.mem_cons.1 hm with rfl | hm
-          · obtain ⟨_, hi, he, ha, hne⟩ := hh
-            have ht : t = e'.1.1 := by rw [he]
-            have hi' : i = e'.1.2 := by rw [he]
-            exact Or.inl (Or.inr ⟨ha, hne, hi, ht, hi'⟩)
-          · exact Or.inr ⟨e', hm, hh⟩
+    obtain ⟨f1, f2, f3⟩ := fold_putMem e.2 e.1.1 e.1.2 m h1 h2
+    obtain ⟨g1, g2, g3⟩ := ih _ f2 f3
+    refine ⟨?_, g2, g3⟩
+    intro t a i
+    rw [g1, f1]
+    constructor
+    · rintro ((h | ⟨hm, ha, hi, ht, hi'⟩) | ⟨e', hm, hh⟩)
+      · exact Or.inl h
+      · refine Or.inr ⟨e, List.mem_cons_self, hi, ?_, hm, ha⟩
+        rw [ht, hi']
+      · exact Or.inr ⟨e', List.mem_cons_of_mem _ hm, hh⟩
+    · rintro (h | ⟨e', hm, hh⟩)
+      · exact Or.inl (Or.inl h)
+      · rcases List.mem_cons.1 hm with rfl | hm
+        · obtain ⟨hi, he, ha, hne⟩ := hh
+          have ht : t = e'.1.1 := by rw [he]
+          have hi' : i = e'.1.2 := by rw [he]
+          exact Or.inl (Or.inr ⟨ha, hne, hi, ht, hi'⟩)
+        · exact Or.inr ⟨e', hm, hh⟩
 
 /-- consistency of the two images -/
 structure MemOk (st : St) : Prop where
@@ -267,10 +251,49 @@ theorem mv_removeMem (m : M) (t : Nat) (i a : Key) (t' : Nat) (a' i' : Key) :
       rintro ⟨hk, _⟩; rw [hk, hg] at h; simp at h
     · exact fun h => h.1
   | some is =>
-    simp only [get_put]
-    by_cases hk : (t', a') = (t, a)
-    · simp only [hk, if_true, Option.getD_some, mem_delSet, hg, true_and]
-    · simp [hk]
+    simp only []
+    by_cases hd : delSet is i = []
+    · simp only [hd, if_true, get_del]
+      by_cases hk : (t', a') = (t, a)
+      · simp only [hk, if_true, Option.getD_none, List.not_mem_nil, hg, Option.getD_some, true_and, false_iff, not_and,
+          Classical.not_not]
+        intro h1
+        have : i' ∉ delSet is i := by rw [hd]; simp
+        rw [mem_delSet] at this
+        by_cases e : i' = i
+        · exact e
+        · exact absurd ⟨h1, e⟩ this
+      · simp [hk]
+    · simp only [hd, if_false, get_put]
+      by_cases hk : (t', a') = (t, a)
+      · simp only [hk, if_true, Option.getD_some, mem_delSet, hg, true_and]
+      · simp [hk]
+
+theorem ne_removeMem (m : M) (t : Nat) (i a : Key) (h : ∀ t' a', m.get (t', a') ≠ some []) :
+    ∀ t' a', (removeMem m t i a).get (t', a') ≠ some [] := by
+  intro t' a'
+  unfold removeMem
+  cases hg : m.get (t, a) with
+  | none => exact h t' a'
+  | some is =>
+    simp only []
+    by_cases hd : delSet is i = []
+    · simp only [hd, if_true, get_del]
+      by_cases hk : (t', a') = (t, a)
+      · simp [hk]
+      · simp only [hk, if_false]; exact h t' a'
+    · simp only [hd, if_false, get_put]
+      by_cases hk : (t', a') = (t, a)
+      · simp only [hk, if_true]; intro he; exact hd (Option.some.inj he)
+      · simp only [hk, if_false]; exact h t' a'
+
+theorem keys_removeMem (m : M) (t : Nat) (i a : Key) (h : m.keys.Nodup) : (removeMem m t i a).keys.Nodup := by
+  unfold removeMem
+  split
+  · split
+    · exact keys_del_nodup _ _ h
+    · exact keys_put_nodup _ _ _ h
+  · exact h
 
 theorem fv_of_get {f : M} {t : Nat} {i a : Key} (h : fv f t i a) : ∃ l, f.get (t, i) = some l := by
   unfold fv at h
@@ -312,8 +335,8 @@ theorem nodup_list_keys (m : M) (t : Nat) (h : m.keys.Nodup) :
       rw [← this]; exact List.mem_map_of_mem hm'
     · simp only [ht, decide_false]; exact ih h.2
 
-/-- the guarded step keeps the two images consistent -/
-theorem step_memOk {st : St} (h : MemOk st) (op : Op) (hc : stepClean st op = true) : MemOk (step st op).1 := by
+/-- every step keeps the two images consistent -/
+theorem step_memOk {st : St} (h : MemOk st) (op : Op) : MemOk (step st op).1 := by
   cases op with
   | add t i a =>
     by_cases hv : validIndex i = true
@@ -349,10 +372,7 @@ theorem step_memOk {st : St} (h : MemOk st) (op : Op) (hc : stepClean st op = tr
     by_cases hv : validIndex i = true
     · simp only [step, hv, Bool.not_true, Bool.false_eq_true, if_false]
       refine ⟨?_, keys_removeFile _ _ _ _ h.fileNodup, ?_, ?_, ?_⟩
-      · show (removeMem st.mem t i a).keys.Nodup
-        unfold removeMem; split
-        · exact keys_put_nodup _ _ _ h.memNodup
-        · exact h.memNodup
+      · exact keys_removeMem _ _ _ _ h.memNodup
       · intro t' i' l hl
         simp only [get_removeFile] at hl
         by_cases hk : (t', i') = (t, i)
@@ -375,19 +395,7 @@ theorem step_memOk {st : St} (h : MemOk st) (op : Op) (hc : stepClean st op = tr
           · exact fun hh => hh.1
           · intro hh
             exact ⟨hh, fun ⟨e1, e2⟩ => hk (by rw [(Prod.mk.inj e1).1, e2])⟩
-      · intro t' a'
-        show (removeMem st.mem t i a).get (t', a') ≠ some []
-        unfold removeMem
-        cases hg : st.mem.get (t, a) with
-        | none => exact h.nonempty t' a'
-        | some is =>
-          simp only [get_put]
-          by_cases hk : (t', a') = (t, a)
-          · rw [if_pos hk]
-            intro he
-            simp only [stepClean, hv, Bool.not_true, Bool.false_or, hg] at hc
-            rw [Option.some.inj he] at hc; simp at hc
-          · rw [if_neg hk]; exact h.nonempty t' a'
+      · exact ne_removeMem _ _ _ _ h.nonempty
     · simpa [step, hv] using h
   | get t i => by_cases hv : validIndex i = true <;> simpa [step, hv] using h
   | list t => simpa [step] using h
@@ -400,9 +408,8 @@ theorem step_memOk {st : St} (h : MemOk st) (op : Op) (hc : stepClean st op = tr
     show mv (rebuild st.files) t a i ↔ _
     unfold rebuild
     rw [g1]
-    simp only [stepClean, List.all_eq_true, Bool.not_eq_true', decide_eq_false_iff_not] at hc
     constructor
-    · rintro (h0 | ⟨e, hm, _, _, he, ha, hne⟩)
+    · rintro (h0 | ⟨e, hm, _, he, ha, hne⟩)
       · simp [mv, AL.get] at h0
       · refine ⟨hne, ?_⟩
         have hm2 : (e.1, e.2) ∈ st.files := hm
@@ -411,7 +418,7 @@ theorem step_memOk {st : St} (h : MemOk st) (op : Op) (hc : stepClean st op = tr
     · rintro ⟨hne, hf⟩
       obtain ⟨l, hl⟩ := fv_of_get hf
       have hm : ((t, i), l) ∈ st.files := (mem_iff_get _ h.fileNodup _ _).2 hl
-      refine Or.inr ⟨((t, i), l), hm, hc _ hm, validIndex_ne_nil (h.valid t i l hl), rfl, ?_, hne⟩
+      refine Or.inr ⟨((t, i), l), hm, validIndex_ne_nil (h.valid t i l hl), rfl, ?_, hne⟩
       unfold fv at hf; rw [hl] at hf; exact hf
 
 /-- with consistent images the answers of list / resolve (read from memory) are the documented ones -/
@@ -481,15 +488,14 @@ theorem mv_fold_putMem (cur : List Key) (t : Nat) (i : Key) :
         · exact Or.inl (Or.inr ⟨by rw [← hk]; exact ha, hi, ht, hk, hi'⟩)
         · exact Or.inr ⟨hm, ha, hi, ht, hi'⟩
 
-theorem refines_of_memOk (ops : List Op) : ∀ (st : St), MemOk st → Clean st ops = true → Refines (abs st) st ops := by
+theorem refines_of_memOk (ops : List Op) : ∀ (st : St), MemOk st → Refines (abs st) st ops := by
   induction ops with
-  | nil => intro _ _ _; trivial
+  | nil => intro _ _; trivial
   | cons op r ih =>
-    intro st h hc
-    simp only [Clean, Bool.and_eq_true] at hc
+    intro st h
     refine ⟨out_ok_mem h op, abs_step st op, ?_⟩
     rw [← abs_step]
-    exact ih _ (step_memOk h op hc.1) hc.2
+    exact ih _ (step_memOk h op)
 
 theorem refinesFiles_all (ops : List Op) : ∀ (st : St), RefinesFiles (abs st) st ops := by
   induction ops with
@@ -499,14 +505,13 @@ theorem refinesFiles_all (ops : List Op) : ∀ (st : St), RefinesFiles (abs st) 
     refine ⟨fun h1 h2 => out_ok_files st op h1 h2, abs_step st op, ?_⟩
     rw [← abs_step]; exact ih _
 
-theorem memOk_run (ops : List Op) : ∀ (st : St), MemOk st → Clean st ops = true → MemOk (run st ops).1 := by
+theorem memOk_run (ops : List Op) : ∀ (st : St), MemOk st → MemOk (run st ops).1 := by
   induction ops with
-  | nil => intro st h _; exact h
+  | nil => intro st h; exact h
   | cons op r ih =>
-    intro st h hc
-    simp only [Clean, Bool.and_eq_true] at hc
+    intro st h
     simp only [run]
-    exact ih _ (step_memOk h op hc.1) hc.2
+    exact ih _ (step_memOk h op)
 
 theorem abs_init : abs init = Spec.empty := by
   funext t i; simp [abs, init, AL.get, Spec.empty]
